@@ -302,3 +302,163 @@ Proof.
   intros Hty Ht Hu H. destruct r; simpl in H;
     first [apply (edit_root_out_ok t v x Hty Ht Hu H) | apply (toml_root_out_ok t v x Hty Ht Hu H)].
 Qed.
+
+(* ---- nesting: the value tree is never deeper than the type (every struct / map / sequence / tuple / variant with a
+        payload is one level; Option and newtype structs are none) ---- *)
+Lemma tab_insert_in k x es k' x' : In (k', x') (tab_insert k x es) -> In (k', x') es \/ x' = x.
+Proof.
+  induction es as [|[k0 x0] es IH]; simpl; intro H.
+  - destruct H as [H|[]]. injection H as _ <-. right; reflexivity.
+  - destruct (bytes_eqb k0 k).
+    + destruct H as [H|H]; [injection H as _ <-; right; reflexivity|left; right; exact H].
+    + destruct H as [H|H]; [left; left; exact H|]. destruct (IH H) as [G|G]; [left; right; exact G|right; exact G].
+Qed.
+
+Lemma tab_of_pairs_in ps k x : In (k, x) (tab_of_pairs ps) -> exists k', In (k', x) ps.
+Proof.
+  unfold tab_of_pairs.
+  assert (G : forall acc, In (k, x) (fold_left (fun acc p => tab_insert (fst p) (snd p) acc) ps acc) ->
+                          (exists k', In (k', x) ps) \/ In (k, x) acc).
+  { induction ps as [|[k0 x0] ps IH]; intros acc H; simpl in H; [right; exact H|].
+    destruct (IH _ H) as [(k' & Hk)|Hin]; [left; exists k'; right; exact Hk|].
+    destruct (tab_insert_in _ _ _ _ _ Hin) as [Ha| ->]; [right; exact Ha|left; exists k0; left; reflexivity]. }
+  intro H. destruct (G [] H) as [E|[]]. exact E.
+Qed.
+
+Lemma tab_depth_bound (es : list (bytes * tomlval)) B :
+  (forall k x, In (k, x) es -> tv_depth x <= B) -> tv_depth (VTab es) <= S B.
+Proof.
+  intro H. cbn [tv_depth]. apply le_n_S. induction es as [|[k x] es IH]; [cbn; lia|]. cbn [fold_right snd].
+  pose proof (H k x (or_introl eq_refl)). specialize (IH (fun k' x' Hin => H k' x' (or_intror Hin))). lia.
+Qed.
+Lemma arr_depth_bound (xs : list tomlval) B :
+  (forall x, In x xs -> tv_depth x <= B) -> tv_depth (VArr xs) <= S B.
+Proof.
+  intro H. cbn [tv_depth]. apply le_n_S. induction xs as [|x xs IH]; [cbn; lia|]. cbn [fold_right].
+  pose proof (H x (or_introl eq_refl)). specialize (IH (fun x' Hin => H x' (or_intror Hin))). lia.
+Qed.
+Lemma fold_max_ge {A} (f : A -> nat) l a : In a l -> f a <= fold_right (fun y acc => Nat.max (f y) acc) 0 l.
+Proof. induction l as [|y l IH]; [contradiction|]. cbn [fold_right]. intros [<- | H]; [lia|]. specialize (IH H). lia. Qed.
+
+Definition DP (t : ty) : Prop := forall v x, ser_value t v = Ok x -> tv_depth x <= ty_depth t.
+Definition DPV (var : variant) : Prop := forall p y, ser_payload var p = Ok y -> S (tv_depth y) <= variant_depth var.
+
+Lemma dp_tuple ts : Forall DP ts -> forall vs xs, zipM ser_value ts vs = Ok xs ->
+  forall x, In x xs -> tv_depth x <= fold_right (fun t' acc => Nat.max (ty_depth t') acc) 0 ts.
+Proof.
+  induction 1 as [|t ts IHt _ IH]; intros [|v vs] xs H x Hin; simpl in H; try discriminate.
+  - injection H as <-. contradiction.
+  - apply rbind_ok in H as (x0 & Hx0 & H). apply rbind_ok in H as (xs' & Hxs & H). injection H as <-.
+    cbn [fold_right]. destruct Hin as [<-|Hin]; [pose proof (IHt v x0 Hx0); lia|]. pose proof (IH vs xs' Hxs x Hin). lia.
+Qed.
+
+Lemma dp_fields fs : Forall (fun ft => DP (snd ft)) fs -> forall vs ps, ser_fields fs vs = Ok ps ->
+  forall k x, In (k, x) (somes ps) -> tv_depth x <= fold_right (fun ft acc => Nat.max (ty_depth (snd ft)) acc) 0 fs.
+Proof.
+  unfold ser_fields.
+  induction 1 as [|[f t] fs IHt _ IH]; intros [|v vs] ps H k x Hin; simpl in H; try discriminate.
+  - injection H as <-. contradiction.
+  - apply rbind_ok in H as (p & Hp & H). apply rbind_ok in H as (ps' & Hps & H). injection H as <-.
+    cbn [fold_right snd]. apply rmap_ok in Hp as (ox & Hox & ->).
+    destruct (ser_map_value_cases ser_value t v) as [(t' & -> & -> & E)|[_ E]]; rewrite E in Hox.
+    + injection Hox as <-. simpl in Hin. pose proof (IH vs ps' Hps k x Hin). lia.
+    + apply rmap_ok in Hox as (x0 & Hx0 & ->). simpl in Hin. destruct Hin as [Hin|Hin].
+      * injection Hin as _ <-. pose proof (IHt v x0 Hx0). simpl in *. lia.
+      * pose proof (IH vs ps' Hps k x Hin). lia.
+Qed.
+
+Lemma dp_table fs vs ps : Forall (fun ft => DP (snd ft)) fs -> ser_fields fs vs = Ok ps ->
+  tv_depth (table_of ps) <= S (fold_right (fun ft acc => Nat.max (ty_depth (snd ft)) acc) 0 fs).
+Proof.
+  intros IH H. unfold table_of, somes_pairs. apply tab_depth_bound. intros k x Hin.
+  destruct (tab_of_pairs_in _ _ _ Hin) as (k' & Hk'). apply (dp_fields fs IH vs ps H k' x Hk').
+Qed.
+
+Theorem ser_depth_le : forall t, DP t.
+Proof.
+  induction t using ty_ind2 with (Q := DPV); unfold DP, DPV in *.
+  - intros v x H. destruct v; simpl in H; try discriminate. injection H as <-. cbn. lia.
+  - intros v x H. destruct v; simpl in H; try discriminate. unfold ser_int_value in H. destruct (ser_int w z); [|discriminate].
+    injection H as <-. cbn. lia.
+  - intros v x H. destruct w; destruct v; simpl in H; try discriminate; injection H as <-; cbn; lia.
+  - intros v x H. destruct v; simpl in H; try discriminate. injection H as <-. cbn. lia.
+  - intros v x H. destruct v; simpl in H; try discriminate. injection H as <-. cbn. lia.
+  - intros v x H. destruct v; simpl in H; try discriminate. unfold ser_datetime in H. apply rmap_ok in H as (d' & _ & ->). cbn. lia.
+  - intros v x H. destruct v; simpl in H; discriminate.
+  - intros v x H. destruct v; simpl in H; discriminate.
+  - intros v x H. destruct v; try (simpl in H; discriminate). rewrite sv_opt_some in H. apply (IHt v x H).
+  - intros v x H. destruct v; try (simpl in H; discriminate). rewrite sv_seq in H. apply rmap_ok in H as (xs & Hxs & ->).
+    cbn [ty_depth]. apply arr_depth_bound. intros x Hx. apply mapM_ok in Hxs.
+    clear - Hxs Hx IHt. induction Hxs as [|v x0 vs xs Hv _ IH]; [contradiction|]. destruct Hx as [<-|Hx]; [apply (IHt v x0 Hv)|apply IH, Hx].
+  - intros v x H0. destruct v; try (simpl in H0; discriminate). rewrite sv_tuple in H0. apply rmap_ok in H0 as (xs & Hxs & ->).
+    cbn [ty_depth]. apply arr_depth_bound. apply (dp_tuple ts H vs xs Hxs).
+  - intros v x H. destruct v; try (simpl in H; discriminate). rewrite sv_map in H. apply rmap_ok in H as (ps & Hps & ->).
+    cbn [ty_depth]. unfold table_of, somes_pairs. apply tab_depth_bound. intros k x Hin.
+    destruct (tab_of_pairs_in _ _ _ Hin) as (k' & Hk'). apply somes_In in Hk'.
+    unfold ser_entries in Hps. apply mapM_ok in Hps.
+    clear - Hps Hk' IHt2. induction Hps as [|kv p es ps Hp _ IH]; [contradiction|]. destruct Hk' as [->|Hk']; [|apply IH, Hk'].
+    apply rbind_ok in Hp as (s & _ & Hp). apply rmap_ok in Hp as (ox & Hox & E).
+    destruct ox as [x0|]; [|discriminate]. simpl in E. injection E as _ <-.
+    destruct (ser_map_value_cases ser_value t2 (snd kv)) as [(t' & -> & Hv & E2)|[_ E2]]; rewrite E2 in Hox; [discriminate|].
+    apply rmap_ok in Hox as (x1 & Hx1 & E3). injection E3 as <-. apply (IHt2 _ _ Hx1).
+  - intros v x H0. destruct v; try (simpl in H0; discriminate). rewrite sv_struct in H0.
+    destruct (bytes_eqb n DT_NAME).
+    + (* a struct the program named like the date-time tunnel: a date-time leaf or an error *)
+      assert (G : forall fs vs acc x, ser_dt_struct fs vs acc = Ok x -> tv_depth x = 0).
+      { clear. induction fs as [|[f t] fs IH]; intros [|v vs] acc x H; simpl in H; try discriminate.
+        - destruct acc; [injection H as <-; reflexivity|discriminate].
+        - destruct (bytes_eqb f DT_FIELD); [|apply (IH _ _ _ H)].
+          apply rbind_ok in H as (d & _ & H). apply (IH _ _ _ H). }
+      rewrite (G _ _ _ _ H0). lia.
+    + apply rmap_ok in H0 as (ps & Hps & ->). cbn [ty_depth]. apply (dp_table fs vs ps H Hps).
+  - intros v x H. destruct v; try (simpl in H; discriminate). rewrite sv_newtype in H. apply (IHt v x H).
+  - intros v x H0. destruct v; try (simpl in H0; discriminate). rewrite sv_tuple_struct in H0. apply rmap_ok in H0 as (xs & Hxs & ->).
+    cbn [ty_depth]. apply arr_depth_bound. apply (dp_tuple ts H vs xs Hxs).
+  - intros v x H0. destruct v as [| | | | | | | | | | | | | |i p]; try (simpl in H0; discriminate). rewrite sv_enum in H0.
+    destruct (pick_cases (ser_variant p) (Err EBadCase) vs i) as [([vn var] & Hn & E)|[_ E]]; rewrite E in H0; [|discriminate].
+    assert (HQ : forall q y, ser_payload var q = Ok y -> S (tv_depth y) <= variant_depth var).
+    { rewrite Forall_forall in H. apply (H (vn, var)). eapply nth_error_In; exact Hn. }
+    assert (Hmax : variant_depth var <= ty_depth (TEnum n vs)).
+    { cbn [ty_depth]. apply (fold_max_ge (fun nv : bytes * variant => variant_depth (snd nv)) vs (vn, var)). eapply nth_error_In; exact Hn. }
+    unfold ser_variant in H0. simpl in H0. destruct var.
+    + destruct p; try discriminate H0. injection H0 as <-. cbn [tv_depth]. lia.
+    + apply rmap_ok in H0 as (y & Hy & ->). pose proof (HQ p y Hy). cbn [tv_depth fold_right snd]. lia.
+    + apply rmap_ok in H0 as (y & Hy & ->). pose proof (HQ p y Hy). cbn [tv_depth fold_right snd]. lia.
+    + apply rmap_ok in H0 as (y & Hy & ->). pose proof (HQ p y Hy). cbn [tv_depth fold_right snd]. lia.
+  - intros p y H. simpl in H. discriminate.
+  - intros p y H. rewrite sp_newtype in H. cbn [variant_depth]. apply le_n_S. apply (IHt p y H).
+  - intros p y H0. destruct p; try (simpl in H0; discriminate). rewrite sp_tuple in H0. apply rmap_ok in H0 as (xs & Hxs & ->).
+    cbn [variant_depth]. apply le_n_S. apply arr_depth_bound. apply (dp_tuple ts H vs xs Hxs).
+  - intros p y H0. destruct p; try (simpl in H0; discriminate). rewrite sp_struct in H0. apply rmap_ok in H0 as (ps & Hps & ->).
+    cbn [variant_depth]. apply le_n_S. apply (dp_table fs vs ps H Hps).
+Qed.
+
+(* the roots: toml's serializer writes a root Datetime as a one-entry table *)
+Lemma ty_depth_struct n fs : ty_depth (TStruct n fs) = S (fold_right (fun ft acc => Nat.max (ty_depth (snd ft)) acc) 0 fs).
+Proof. reflexivity. Qed.
+
+Lemma toml_root_depth t v x : ser_toml_root t v = Ok x -> tv_depth x <= Nat.max 1 (ty_depth t).
+Proof.
+  intro H.
+  assert (Edit : ser_edit_root t v = Ok x -> tv_depth x <= Nat.max 1 (ty_depth t)).
+  { intro H0. apply edit_root_is_table in H0 as (es & -> & H0). pose proof (ser_depth_le t v _ H0). lia. }
+  destruct t; try (apply Edit; destruct v; exact H).
+  - destruct v; try (apply Edit; exact H). simpl in H. injection H as <-. cbn. lia.
+  - destruct v; try (apply Edit; exact H). simpl in H. apply rmap_ok in H as (ps & Hps & ->).
+    assert (IH : Forall (fun ft : bytes * ty => DP (snd ft)) fs) by (apply Forall_forall; intros ft _; apply ser_depth_le).
+    pose proof (dp_table fs vs ps IH Hps) as G. unfold table_of in G. rewrite ty_depth_struct. lia.
+  - destruct v as [| | | | | | | | | | | | | |i p]; try (apply Edit; exact H).
+    simpl in H.
+    match type of H with pick ?f ?d vs i = _ => destruct (pick_cases f d vs i) as [([vn var] & Hn & E)|[_ E]]; rewrite E in H end;
+      [|discriminate].
+    simpl in H. destruct var; try discriminate H.
+    + apply Edit. exact H.
+    + apply Edit. exact H.
+    + destruct p; try discriminate H. destruct (zipM ser_value ts vs0); discriminate H.
+Qed.
+
+Theorem ser_text_depth r t v x : ser_text r t v = Ok x -> tv_depth x <= Nat.max 1 (ty_depth t).
+Proof.
+  intro H. destruct r; simpl in H; try (apply (toml_root_depth t v x H)).
+  all: apply edit_root_is_table in H as (es & -> & H); pose proof (ser_depth_le t v _ H); lia.
+Qed.
